@@ -1,6 +1,9 @@
 package main
 
-import "os"
+import (
+	"encoding/json"
+	"os"
+)
 
 func tempDir() (string, func()) {
 	base := os.Getenv("YQV_TMP")
@@ -13,3 +16,5 @@ func tempDir() (string, func()) {
 	}
 	return d, func() { os.RemoveAll(d) }
 }
+
+func jsonUnmarshal(data []byte, v interface{}) error { return json.Unmarshal(data, v) }
